@@ -36,6 +36,13 @@ Judge(e) == CASE e.ev = "auth_edge" -> JudgeEdge(e)
               [] e.ev = "auth_unreachable" -> [ M_source_state_reachable |-> Must(FALSE) ]
               \* migrate entry points (beyond the listed properties): only the chain-level admin, only to the contract's own
               \* code, only to a newer version; a refused migration changes nothing
+              \* the v1.2.0 -> v1.3.0 upgrade step: switches change without the owner's toggle only here, and only for the pool it names
+              [] e.ev = "auth_upgrade" -> [ M_upgrade_of_a_v120_deployment_succeeds |-> Must(e.ok /\ e.downgraded = Cardinality(DOMAIN e.before)),
+                                            C17_upgrade_switches_off_only_the_named_pool |-> G(e.ok,
+                                                /\ DOMAIN e.after = DOMAIN e.before
+                                                /\ \A q \in DOMAIN e.after : /\ e.after[q].rest = e.before[q].rest /\ e.after[q].wd
+                                                                             /\ e.after[q].sw = (q # e.named) /\ e.after[q].dep = (q # e.named)) ]
+              [] e.ev = "auth_upgrade_again" -> [ S_second_upgrade_refused_and_harmless |-> Must(~e.ok /\ e.same) ]
               [] e.ev = "auth_migrate" -> [ S_migration_needs_admin_own_code_newer_version |-> Must(e.ok = (e.by_admin /\ e.c = e.code /\ e.newer)),
                                             S_refused_migration_changes_nothing |-> G(~e.ok, e.digest_same) ]
               [] e.ev = "reset" -> NoGuards
